@@ -9,6 +9,7 @@ pub mod refmodel;
 pub mod relgen;
 pub mod gsom;
 pub mod insert;
+pub mod insert_core;
 pub mod interrupt;
 pub mod model;
 pub mod numerics;
